@@ -1283,6 +1283,11 @@ func (fc *funcCtx) doReturn(st *State, x *ssa.Return) {
 	for _, r := range x.Results {
 		results = append(results, fc.val(st, r))
 	}
+	if fc.collector != nil {
+		// inlined callee: the path continues in the caller
+		*fc.collector = append(*fc.collector, inlineRet{st, results})
+		return
+	}
 	env := fc.entryEnv(st)
 	for i, n := range fc.con.Results {
 		env.vars[n] = results[i]
